@@ -1,0 +1,26 @@
+//go:build verif
+
+package idxfile
+
+// Reference accounting probes for the verification harness (C23): the number
+// of references currently held on the .idx / .rev SharedFiles of a LazyIndex,
+// and a way to hold one reference from outside (a pin), so that a release too
+// many anywhere shows up as a missing pin.
+
+// VerifIdxRefs returns the reference count of the .idx SharedFile.
+func (s *LazyIndex) VerifIdxRefs() int { return s.idx.VerifState().Refs }
+
+// VerifRevRefs returns the reference count of the .rev SharedFile.
+func (s *LazyIndex) VerifRevRefs() int { return s.rev.VerifState().Refs }
+
+// VerifIdxOpen reports whether the .idx descriptor is currently open.
+func (s *LazyIndex) VerifIdxOpen() bool { return s.idx.VerifState().Open }
+
+// VerifPinIdx acquires one reference on the .idx SharedFile.
+func (s *LazyIndex) VerifPinIdx() error {
+	_, err := s.idx.Acquire()
+	return err
+}
+
+// VerifUnpinIdx releases one reference on the .idx SharedFile.
+func (s *LazyIndex) VerifUnpinIdx() { s.idx.Release() }
